@@ -22,7 +22,7 @@ bound in the `Py.R` monad, in Python's evaluation order.
 """
 import ast, os, sys, importlib, textwrap, subprocess, json
 
-RESERVED = {'end', 'from', 'at', 'in', 'fun', 'let', 'open', 'then', 'else', 'do', 'have', 'show', 'match', 'with', 'where', 'by',
+RESERVED = {'partial', 'private', 'protected', 'unsafe', 'noncomputable', 'mutual', 'deriving', 'universe', 'example', 'abbrev', 'axiom', 'opaque', 'inductive', 'export', 'extends', 'this', 'Type', 'Prop', 'Sort', 'end', 'from', 'at', 'in', 'fun', 'let', 'open', 'then', 'else', 'do', 'have', 'show', 'match', 'with', 'where', 'by',
             'prefix', 'infix', 'local', 'if', 'def', 'theorem', 'instance', 'structure', 'class', 'namespace', 'section',
             'variable', 'import', 'return', 'for', 'mut', 'unless', 'try', 'catch', 'finally', 'macro', 'syntax', 'notation'}
 
@@ -33,7 +33,9 @@ EXC = {'UnicodeDecodeError': 'unicodeDecodeError', 'ValueError': 'valueError', '
 LEAN_T = {'int': 'Int', 'bytes': 'List UInt8', 'listint': 'List Int', 'bool': 'Bool', 'unit': 'Unit',
           'entry': '(List UInt8 × List UInt8)', 'listentry': 'List (List UInt8 × List UInt8)',
           'triple': '(Int × Int × Int)', 'listtriple': 'List (Int × Int × Int)',
-          'header': 'Py.Header', 'listheader': 'List Py.Header', 'none': 'Unit'}
+          'header': 'Py.Header', 'listheader': 'List Py.Header', 'none': 'Unit',
+          'valmap': 'List (List UInt8 × Int)', 'mapentry': '(Int × List (List UInt8 × Int))',
+          'staticmap': 'List (List UInt8 × (Int × List (List UInt8 × Int)))'}
 
 
 def lean_t(ty):
@@ -41,9 +43,28 @@ def lean_t(ty):
         return ty[5:]
     if ty.startswith('obj:'):
         return ty[4:]
+    if ty.startswith('opt:'):
+        inner = lean_t(ty[4:])
+        return 'Option ' + (inner if (' ' not in inner or inner.startswith('(')) else '(%s)' % inner)
     if ty.startswith('tuple:'):
         return '(' + ' × '.join(lean_t(x) for x in ty[6:].split(',')) + ')'
     return LEAN_T[ty]
+
+
+SEARCHRES = 'tuple:int,bytes,opt:bytes'
+
+
+def coerce(text, ty, target):
+    """a value of static type `ty` where `target` is expected (None / a value into an Optional)"""
+    if ty == target:
+        return text
+    if target.startswith('opt:'):
+        if ty == 'none':
+            return '(none : %s)' % lean_t(target)
+        if ty == target[4:]:
+            return '(some %s)' % text
+    raise Unsupported('a value of type %s where %s is expected' % (ty, target))
+
 
 
 def own_call(cx, meth, args_text):
@@ -108,8 +129,8 @@ def MON(cx):
 
 
 # ------------------------------------------------------------------------------------------------ expressions
-def expr(e, env, cx):
-    """-> (binds: [lean line], text, type)"""
+def expr(e, env, cx, expect=None):
+    """-> (binds: [lean line], text, type); `expect` steers tuple literals whose components are Optional"""
     if isinstance(e, ast.Constant):
         if e.value is None:
             return [], '()', 'none'
@@ -142,6 +163,8 @@ def expr(e, env, cx):
             v = cx.consts[e.id]
             if e.id not in cx.used_consts:
                 cx.used_consts.append(e.id)
+            if isinstance(v, dict) and 'bytes' in v:
+                return [], 'c_' + e.id, 'bytes'
             return [], 'c_' + e.id, 'int' if isinstance(v, int) else ('listtriple' if v == 'TRIPLES' else 'listint')
         raise Unsupported('name %s' % e.id)
     if isinstance(e, ast.Constant) and e.value is None:
@@ -153,6 +176,8 @@ def expr(e, env, cx):
         if e.attr in ext.get('properties', {}):
             lines, tt = sub_call(cx, e.value.attr, ocls, e.attr + '.getter', [])
             return lines, tt, ext['properties'][e.attr]
+        if e.attr in ext.get('fields', {}):
+            return [], 'self.%s.%s' % (fname_(e.value.attr), fname_(e.attr)), ext['fields'][e.attr]
         raise Unsupported('attribute %s of %s' % (e.attr, ocls))
     # self.<own property>
     if _is_self_attr(e) and cx.cls and e.attr in cx.cls.get('properties', {}):
@@ -163,6 +188,8 @@ def expr(e, env, cx):
             return [], 'self.' + fname_(e.attr), cx.cls['fields'][e.attr]
         if cx.cls and e.value.id == cx.cls['name'] and e.attr in cx.cls['consts']:
             ty, _ = cx.cls['consts'][e.attr]
+            if ty == 'staticmap':
+                return [], 'c_%s_%s' % (cx.cls['name'], e.attr), 'staticmap'
             if e.attr not in cx.cls['used']:
                 cx.cls['used'].append(e.attr)
             return [], 'c_%s_%s' % (cx.cls['name'], e.attr), ty
@@ -170,6 +197,26 @@ def expr(e, env, cx):
     if isinstance(e, (ast.Compare, ast.BoolOp)) or (isinstance(e, ast.UnaryOp) and isinstance(e.op, ast.Not)):
         b, c = cond(e, env, cx)
         return b, '(decide %s)' % c, 'bool'
+    if isinstance(e, ast.IfExp):
+        bc, c = cond(e.test, env, cx)
+        b1, t1, ty1 = expr(e.body, env, cx)
+        b2, t2, ty2 = expr(e.orelse, env, cx)
+        if b1 or b2 or ty1 != ty2:
+            raise Unsupported('conditional expression')
+        return bc, '(if %s then %s else %s)' % (c, t1, t2), ty1
+    # self.<sub-object>.<plain field>
+    if isinstance(e, ast.Attribute) and _is_self_attr(e.value) and cx.cls and cx.cls['fields'].get(e.value.attr, '').startswith('obj:'):
+        ocls_ = cx.cls['fields'][e.value.attr][4:]
+        ext_ = cx.cls.get('extern', {}).get(ocls_, {})
+        if e.attr in ext_.get('fields', {}):
+            return [], 'self.%s.%s' % (fname_(e.value.attr), fname_(e.attr)), ext_['fields'][e.attr]
+    if isinstance(e, ast.BinOp) and isinstance(e.op, ast.Add):
+        b1_, t1_, ty1_ = expr(e.left, env, cx)
+        if ty1_ == 'bytes':
+            b2_, t2_, ty2_ = expr(e.right, env, cx)
+            if ty2_ != 'bytes':
+                raise Unsupported('bytes + ' + ty2_)
+            return b1_ + b2_, '(%s ++ %s)' % (t1_, t2_), 'bytes'
     if isinstance(e, ast.BinOp):
         b1, t1, ty1 = expr(e.left, env, cx)
         b2, t2, ty2 = expr(e.right, env, cx)
@@ -213,6 +260,8 @@ def expr(e, env, cx):
             return bv, '%s.%d' % (tv, i + 1), 'bytes'
         if tyv == 'header' and i in (0, 1):
             return bv, ('%s.1' % tv) if i == 0 else ('%s.2.1' % tv), 'bytes'
+        if tyv == 'mapentry' and i in (0, 1):
+            return bv, '%s.%d' % (tv, i + 1), ('int', 'valmap')[i]
         if tyv.startswith('tuple:'):
             parts = tyv[6:].split(',')
             if 0 <= i < len(parts):
@@ -245,8 +294,11 @@ def expr(e, env, cx):
         return bs, '[' + ', '.join(ts) + ']', 'listint'
     if isinstance(e, ast.Tuple):
         bs, ts, tys = [], [], []
-        for x in e.elts:
+        want = expect[6:].split(',') if expect and expect.startswith('tuple:') and len(expect[6:].split(',')) == len(e.elts) else None
+        for j, x in enumerate(e.elts):
             b, t, ty = expr(x, env, cx)
+            if want:
+                t = coerce(t, ty, want[j]); ty = want[j]
             bs += b; ts.append(t); tys.append(ty)
         return bs, '(' + ', '.join(ts) + ')', 'tuple:' + ','.join(tys)
     if isinstance(e, ast.ListComp) and len(e.generators) == 1 and not e.generators[0].ifs and isinstance(e.generators[0].target, ast.Name):
@@ -266,6 +318,14 @@ def expr(e, env, cx):
         t = cx.fresh()
         body = ' '.join(x + ';' for x in be) + ' .ok ' + te if be else '.ok ' + te
         return bq + [B(cx, t, 'Py.listMapM (fun %s => do %s) %s' % (lname(g.target.id), body, tq))], t, 'listheader'
+    # d.get(key) on a dict of bytes keys (an insertion-ordered association list): None when absent
+    if isinstance(e, ast.Call) and isinstance(e.func, ast.Attribute) and e.func.attr == 'get' and len(e.args) == 1 and not e.keywords:
+        bd, td, tyd = expr(e.func.value, env, cx)
+        if tyd in ('staticmap', 'valmap'):
+            bk, tk, tyk = expr(e.args[0], env, cx)
+            if tyk != 'bytes':
+                raise Unsupported('dict key of type ' + tyk)
+            return bd + bk, '(Py.assocGet %s %s)' % (td, tk), 'opt:' + ('mapentry' if tyd == 'staticmap' else 'int')
     # header.__class__(a, b): same class as `header`
     if isinstance(e, ast.Call) and isinstance(e.func, ast.Attribute) and e.func.attr == '__class__' and len(e.args) == 2:
         bh, th, tyh = expr(e.func.value, env, cx)
@@ -321,6 +381,21 @@ def expr(e, env, cx):
             bs += b; ts.append(t)
         lines, tt = own_call(cx, e.func.attr, ts)
         return bs + lines, tt, rty
+    if isinstance(e, ast.Call) and isinstance(e.func, ast.Attribute) and e.func.attr == 'join' and isinstance(e.func.value, ast.Constant) \
+            and e.func.value.value == b'' and len(e.args) == 1 and isinstance(e.args[0], ast.List):
+        bs, ts = [], []
+        for x in e.args[0].elts:
+            b, t, ty = expr(x, env, cx)
+            if ty != 'bytes':
+                raise Unsupported('join of ' + ty)
+            bs += b; ts.append(t)
+        return bs, '(' + ' ++ '.join(ts) + ')' if ts else '([] : List UInt8)', 'bytes'
+    if isinstance(e, ast.Call) and isinstance(e.func, ast.Name) and e.func.id == 'ord' and len(e.args) == 1:
+        b, t, ty = expr(e.args[0], env, cx)
+        if ty != 'bytes':
+            raise Unsupported('ord of ' + ty)
+        tt = cx.fresh()
+        return b + [B(cx, tt, 'Py.ord1 %s' % t)], tt, 'int'
     if isinstance(e, ast.Call) and isinstance(e.func, ast.Name):
         f = e.func.id
         if f in ('HeaderTuple', 'NeverIndexedHeaderTuple') and not e.keywords:
@@ -407,12 +482,23 @@ def cond(e, env, cx):
         raise Unsupported('truth value of ' + ty)
     if isinstance(e, ast.Compare):
         items = [e.left] + list(e.comparators)
+        if len(e.ops) == 1 and isinstance(e.ops[0], (ast.Is, ast.IsNot)) and isinstance(e.comparators[0], ast.Constant) and e.comparators[0].value is None:
+            b, t, ty = expr(e.left, env, cx)
+            if ty == 'none':
+                return b, 'True' if isinstance(e.ops[0], ast.Is) else 'False'
+            if not ty.startswith('opt:'):
+                return b, 'False' if isinstance(e.ops[0], ast.Is) else 'True'
+            return b, '(%s %s none)' % (t, '=' if isinstance(e.ops[0], ast.Is) else '≠')
         bs, ts = [], []
+        tys_ = []
         for x in items:
             b, t, ty = expr(x, env, cx)
-            if ty != 'int':
-                raise Unsupported('comparison of ' + ty)
+            tys_.append(ty)
             bs += b; ts.append(t)
+        if all(ty == 'bytes' for ty in tys_) and all(isinstance(o, (ast.Eq, ast.NotEq)) for o in e.ops):
+            pass
+        elif any(ty != 'int' for ty in tys_):
+            raise Unsupported('comparison of ' + ', '.join(tys_))
         sym = {'Lt': '<', 'Gt': '>', 'LtE': '≤', 'GtE': '≥', 'Eq': '=', 'NotEq': '≠'}
         cs = []
         for i, op in enumerate(e.ops):
@@ -497,8 +583,8 @@ def toplevel_assigned(stmts):
 
 class K:
     """continuation of a statement list: what `fall off the end`, `break` and `return` mean here"""
-    def __init__(self, fall, brk=None, ret_ok=False):
-        self.fall, self.brk, self.ret_ok = fall, brk, ret_ok
+    def __init__(self, fall, brk=None, ret_ok=False, ret=None):
+        self.fall, self.brk, self.ret_ok, self.ret = fall, brk, ret_ok, ret
 
 
 def ind(lines, n=2):
@@ -544,6 +630,12 @@ def tr(stmts, env, cx, k):
         ocls = cx.cls['fields'][s.targets[0].value.attr][4:]
         ext = cx.cls.get('extern', {}).get(ocls, {})
         prop = s.targets[0].attr
+        if prop not in ext.get('properties', {}) and prop in ext.get('fields', {}):
+            sub = s.targets[0].value.attr
+            b, t, ty = expr(s.value, env, cx)
+            if ty != ext['fields'][prop]:
+                raise Unsupported('type of %s.%s' % (sub, prop))
+            return b + ['let self := { self with %s := { self.%s with %s := %s } }' % (fname_(sub), fname_(sub), fname_(prop), t)] + tr(rest, env, cx, k)
         if prop not in ext.get('properties', {}):
             raise Unsupported('assignment to %s.%s' % (ocls, prop))
         b, t, ty = expr(s.value, env, cx)
@@ -551,6 +643,24 @@ def tr(stmts, env, cx, k):
             raise Unsupported('type of %s.%s' % (ocls, prop))
         lines, tt = sub_call(cx, s.targets[0].value.attr, ocls, prop + '.setter', [t])
         return b + lines + tr(rest, env, cx, k)
+    # self.<sub-object>.<plain field> = value
+    if isinstance(s, ast.Assign) and len(s.targets) == 1 and isinstance(s.targets[0], ast.Attribute) and _is_self_attr(s.targets[0].value) \
+            and cx.cls and cx.cls['fields'].get(s.targets[0].value.attr, '').startswith('obj:') \
+            and s.targets[0].attr in cx.cls.get('extern', {}).get(cx.cls['fields'][s.targets[0].value.attr][4:], {}).get('fields', {}):
+        sub = s.targets[0].value.attr
+        fty = cx.cls['extern'][cx.cls['fields'][sub][4:]]['fields'][s.targets[0].attr]
+        b, t, ty = expr(s.value, env, cx)
+        if ty != fty:
+            raise Unsupported('type of %s.%s' % (sub, s.targets[0].attr))
+        return b + ['let self := { self with %s := { self.%s with %s := %s } }' % (fname_(sub), fname_(sub), fname_(s.targets[0].attr), t)] + tr(rest, env, cx, k)
+    # self.<list field>.append(x)
+    if isinstance(s, ast.Expr) and isinstance(s.value, ast.Call) and isinstance(s.value.func, ast.Attribute) and s.value.func.attr == 'append' \
+            and _is_self_attr(s.value.func.value) and cx.cls and cx.cls['fields'].get(s.value.func.value.attr) == 'listint' and len(s.value.args) == 1:
+        b, t, ty = expr(s.value.args[0], env, cx)
+        if ty != 'int':
+            raise Unsupported('append of ' + ty)
+        fld = fname_(s.value.func.value.attr)
+        return b + ['let self := { self with %s := self.%s ++ [%s] }' % (fld, fld, t)] + tr(rest, env, cx, k)
     # self.<own property> = value
     if isinstance(s, ast.Assign) and len(s.targets) == 1 and _is_self_attr(s.targets[0]) and cx.cls \
             and s.targets[0].attr in cx.cls.get('properties', {}):
@@ -584,6 +694,8 @@ def tr(stmts, env, cx, k):
         attr = s.targets[0].attr
         if not cx.cls or attr not in cx.cls['fields']:
             raise Unsupported('assignment to self.%s' % attr)
+        if isinstance(s.value, ast.List) and not s.value.elts and cx.cls['fields'][attr] in ('listint', 'listheader'):
+            return ['let self := { self with %s := [] }' % fname_(attr)] + tr(rest, env, cx, k)
         b, t, ty = expr(s.value, env, cx)
         if ty != cx.cls['fields'][attr]:
             raise Unsupported('self.%s: %s assigned where %s is expected' % (attr, ty, cx.cls['fields'][attr]))
@@ -608,6 +720,10 @@ def tr(stmts, env, cx, k):
             and all(isinstance(x, ast.Name) for x in s.targets[0].elts) and len(s.targets[0].elts) == 3:
         a, b_, c_ = [x.id for x in s.targets[0].elts]
         bb, t, ty = expr(s.value, env, cx)
+        if ty.startswith('tuple:') and len(ty[6:].split(',')) == 3:
+            p1, p2, p3 = ty[6:].split(',')
+            env2 = dict(env); env2[a] = p1; env2[b_] = p2; env2[c_] = p3
+            return bb + ['let %s := %s.1' % (lname(a), t), 'let %s := %s.2.1' % (lname(b_), t), 'let %s := %s.2.2' % (lname(c_), t)] + tr(rest, env2, cx, k)
         if ty != 'triple':
             raise Unsupported('unpacking of ' + ty)
         env2 = dict(env); env2[a] = 'int'; env2[b_] = 'int'; env2[c_] = 'int'
@@ -615,14 +731,33 @@ def tr(stmts, env, cx, k):
     if isinstance(s, ast.Assign):
         if len(s.targets) != 1 or not isinstance(s.targets[0], ast.Name):
             raise Unsupported('assignment target')
-        b, t, ty = expr(s.value, env, cx)
         name = s.targets[0].id
+        decl = getattr(cx, 'var_types', {}).get(name)
+        if decl:
+            b, t, ty = expr(s.value, env, cx, expect=decl[4:] if decl.startswith('opt:') else decl)
+            t = coerce(t, ty, decl); ty = decl
+        else:
+            b, t, ty = expr(s.value, env, cx)
         if ty == 'str':
             return b + tr(rest, env, cx, k)          # opaque strings (messages) are not tracked
         if ty.startswith('tuple'):
             raise Unsupported('tuple assignment')
         env2 = dict(env); env2[name] = ty
         return b + ['let %s := %s' % (lname(name), t)] + tr(rest, env2, cx, k)
+    if isinstance(s, ast.AugAssign) and isinstance(s.op, ast.BitOr) and isinstance(s.target, ast.Subscript) \
+            and isinstance(s.target.value, ast.Name) and env.get(s.target.value.id) == 'bytes' \
+            and isinstance(s.target.slice, ast.Constant) and s.target.slice.value == 0:
+        b, t, ty = expr(s.value, env, cx)
+        if ty != 'int':
+            raise Unsupported('|= of ' + ty)
+        v = s.target.value.id
+        tt = cx.fresh()
+        return b + [B(cx, tt, 'Py.setFirstOr %s %s' % (lname(v), t)), 'let %s := %s' % (lname(v), tt)] + tr(rest, env, cx, k)
+    if isinstance(s, ast.AugAssign) and isinstance(s.op, ast.Add) and isinstance(s.target, ast.Name) and env.get(s.target.id) == 'bytes':
+        b, t, ty = expr(s.value, env, cx)
+        if ty != 'bytes':
+            raise Unsupported('bytes += ' + ty)
+        return b + ['let %s := %s ++ %s' % (lname(s.target.id), lname(s.target.id), t)] + tr(rest, env, cx, k)
     if isinstance(s, ast.AugAssign) and _is_self_attr(s.target):
         attr = s.target.attr
         if not cx.cls or cx.cls['fields'].get(attr) != 'int':
@@ -684,6 +819,36 @@ def tr(stmts, env, cx, k):
             raise Unsupported('append of ' + ty)
         return b + ['let %s := %s ++ [%s]' % (lname(lst), lname(lst), t)] + tr(rest, env, cx, k)
     if isinstance(s, ast.If):
+        # `if x:` / `if x is not None:` on an Optional value that the branches do not reassign: a match that names the payload
+        nv = None
+        if isinstance(s.test, ast.Name) and env.get(s.test.id, '').startswith('opt:'):
+            nv = s.test.id
+        elif isinstance(s.test, ast.Compare) and len(s.test.ops) == 1 and isinstance(s.test.ops[0], ast.IsNot) \
+                and isinstance(s.test.left, ast.Name) and env.get(s.test.left.id, '').startswith('opt:') \
+                and isinstance(s.test.comparators[0], ast.Constant) and s.test.comparators[0].value is None:
+            nv = s.test.left.id
+        swap = False
+        if nv is None and isinstance(s.test, ast.Compare) and len(s.test.ops) == 1 and isinstance(s.test.ops[0], ast.Is) \
+                and isinstance(s.test.left, ast.Name) and env.get(s.test.left.id, '').startswith('opt:') \
+                and isinstance(s.test.comparators[0], ast.Constant) and s.test.comparators[0].value is None \
+                and s.body and isinstance(s.body[-1], (ast.Return, ast.Raise)) and not s.orelse:
+            nv = s.test.left.id
+            swap = True
+        if nv is not None and swap and nv not in assigned_in(list(s.body) + rest):
+            env_s = dict(env); env_s[nv] = env[nv][4:]
+            env_n = dict(env); env_n[nv] = 'none'
+            a = tr(list(s.body), env_n, cx, k)
+            o = tr(rest, env_s, cx, k)
+            return ['match %s with' % lname(nv), '| none => do'] + ind(a) + ['| some %s => do' % lname(nv)] + ind(o)
+        if nv is not None and not swap and nv not in assigned_in(list(s.body) + list(s.orelse) + rest):
+            inner = env[nv][4:]
+            if isinstance(s.test, ast.Name) and not (inner.startswith('tuple:') or inner in ('mapentry', 'entry', 'header')):
+                raise Unsupported('truth value of an Optional %s' % inner)     # e.g. Optional[int]: 0 is falsy too
+            env_s = dict(env); env_s[nv] = inner
+            env_n = dict(env); env_n[nv] = 'none'
+            a = tr(list(s.body) + rest, env_s, cx, k)
+            o = tr(list(s.orelse) + rest, env_n, cx, k)
+            return ['match %s with' % lname(nv), '| some %s => do' % lname(nv)] + ind(a) + ['| none => do'] + ind(o)
         b, c = cond(s.test, env, cx)
         if c == 'False' and not isinstance(s.test, ast.Constant):      # decided by the static type of the tested value (None)
             return b + tr(list(s.orelse) + rest, env, cx, k)
@@ -706,11 +871,18 @@ def tr(stmts, env, cx, k):
                 bs += b
         return bs + [ERR(cx, EXC[nm])]
     if isinstance(s, ast.Return):
-        if not k.ret_ok:
+        if not k.ret_ok and k.ret is None:
             raise Unsupported('return inside a loop or a try block')
         if s.value is None:
-            return [ret_ok(env, '()', cx)]
-        b, t, ty = expr(s.value, env, cx)
+            b, t = [], '()'
+        else:
+            want = getattr(cx, 'rkind', None)
+            inner = want[4:] if want and want.startswith('opt:') else want
+            b, t, ty = expr(s.value, env, cx, expect=inner)
+            if want and want.startswith('opt:'):
+                t = coerce(t, ty, want)
+        if k.ret is not None:
+            return b + k.ret(env, t)
         return b + [ret_ok(env, t, cx)]
     if isinstance(s, ast.Break):
         if k.brk is None:
@@ -755,17 +927,54 @@ def tr(stmts, env, cx, k):
         cx.loops.append('\n'.join(txt))
         pat = tuple_text(rets) if rets else '_'
         return ['let %s ← %s fuel %s' % (pat, lf, ' '.join(lname(p) for p in params))] + tr(rest, env, cx, k)
+    if isinstance(s, ast.For) and isinstance(s.iter, ast.Call) and isinstance(s.iter.func, ast.Name) and s.iter.func.id == 'enumerate' \
+            and len(s.iter.args) == 1 and not s.orelse and isinstance(s.target, ast.Tuple) and len(s.target.elts) == 2 \
+            and isinstance(s.target.elts[0], ast.Name) and isinstance(s.target.elts[1], ast.Tuple) \
+            and all(isinstance(x, ast.Name) for x in s.target.elts[1].elts) and len(s.target.elts[1].elts) == 2:
+        bq, tq, tyq = expr(s.iter.args[0], env, cx)
+        if tyq != 'listentry':
+            raise Unsupported('enumerate over ' + tyq)
+        cx.nloop += 1
+        lf = '%s.for%d' % (cx.fname, cx.nloop)
+        vi = s.target.elts[0].id
+        vn, vv = [x.id for x in s.target.elts[1].elts]
+        occurring = set(names_in(ast.Module(body=list(s.body), type_ignores=[])))
+        params = [v for v in env if (v in occurring or (v == 'self' and getattr(cx, 'method', False))) and v not in (vi, vn, vv)]
+        assigned = assigned_in(s.body)
+        rets = [v for v in params if v in assigned]
+        if any(isinstance(n, (ast.Break, ast.Continue)) for st in s.body for n in ast.walk(st)):
+            raise Unsupported('break / continue inside a for loop')
+        has_ret = any(isinstance(n, ast.Return) for st in s.body for n in ast.walk(st))
+        rkind = getattr(cx, 'rkind', 'unit')
+        ret_lean = ('(%s × %s)' % (cx.cls['name'], lean_t(rkind))) if getattr(cx, 'method', False) else lean_t(rkind)
+        state_lean = ' × '.join(lean_t(env[v]) for v in rets) if rets else 'Unit'
+        call = lambda env_: ['%s fuel it_rest (it_idx + (1 : Int)) %s' % (lf, ' '.join(lname(p) for p in params))]
+        retf = lambda env_, t: ['.ok (.ret %s)' % (('(self, %s)' % t) if getattr(cx, 'method', False) else t)]
+        kl = K(fall=call, brk=None, ret_ok=False, ret=retf if has_ret else None)
+        envl = dict(env); envl[vi] = 'int'; envl[vn] = 'bytes'; envl[vv] = 'bytes'
+        body = tr(list(s.body), envl, cx, kl)
+        sig = 'def %s : Nat → List (List UInt8 × List UInt8) → Int → %s → %s (Py.Flow %s (%s))' % (
+            lf, ' → '.join(lean_t(env[p]) for p in params), MON(cx), ret_lean, state_lean)
+        txt = [sig, '  | _, [], _, %s => .ok (.next %s)' % (', '.join(lname(p) for p in params), tuple_text(rets) if rets else '()'),
+               '  | fuel, it_head :: it_rest, it_idx, %s => do' % ', '.join(lname(p) for p in params),
+               '    let %s := it_idx' % lname(vi), '    let %s := it_head.1' % lname(vn), '    let %s := it_head.2' % lname(vv)] + ind(body, 4)
+        cx.loops.append('\n'.join(txt))
+        after = tr(rest, env, cx, k)
+        pat = tuple_text(rets) if rets else '_'
+        return bq + ['let fl ← %s fuel %s (0 : Int) %s' % (lf, tq, ' '.join(lname(p) for p in params)),
+                     'match fl with', '| .ret r => .ok r', '| .next %s => do' % pat] + ind(after)
     if isinstance(s, ast.For):
         if s.orelse or not isinstance(s.target, ast.Name):
             raise Unsupported('for … else / tuple target')
         bq, tq, tyq = expr(s.iter, env, cx)
-        if tyq != 'bytes':
+        if tyq not in ('bytes', 'listint'):
             raise Unsupported('iteration over ' + tyq)
+        elem_lean = 'List UInt8' if tyq == 'bytes' else 'List Int'
         cx.nloop += 1
         lf = '%s.for%d' % (cx.fname, cx.nloop)
         var = s.target.id
         occurring = set(names_in(ast.Module(body=list(s.body), type_ignores=[])))
-        params = [v for v in env if v in occurring and v != var]
+        params = [v for v in env if (v in occurring or (v == 'self' and getattr(cx, 'method', False))) and v != var]
         assigned = assigned_in(s.body)
         rets = [v for v in params if v in assigned]
         msgs = message_vars(list(s.body))
@@ -776,18 +985,18 @@ def tr(stmts, env, cx, k):
                 raise Unsupported('variable %s first assigned inside a loop is used after it' % v)
         if any(isinstance(n, (ast.Return, ast.Break, ast.Continue)) for st in s.body for n in ast.walk(st)):
             raise Unsupported('return / break / continue inside a for loop')
-        call = lambda env_: ['%s it_rest %s' % (lf, ' '.join(lname(p) for p in params))]
+        call = lambda env_: ['%s fuel it_rest %s' % (lf, ' '.join(lname(p) for p in params))]
         kl = K(fall=call, brk=None, ret_ok=False)
         envl = dict(env); envl[var] = 'int'
         body = tr(list(s.body), envl, cx, kl)
         rty = ' × '.join(lean_t(env[v]) for v in rets) if rets else 'Unit'
-        sig = 'def %s : List UInt8 → %s → %s (%s)' % (lf, ' → '.join(lean_t(env[p]) for p in params), MON(cx), rty)
-        txt = [sig, '  | [], %s => .ok %s' % (', '.join(lname(p) for p in params), tuple_text(rets) if rets else '()'),
-               '  | it_head :: it_rest, %s => do' % ', '.join(lname(p) for p in params),
-               '    let %s := (it_head.toNat : Int)' % lname(var)] + ind(body, 4)
+        sig = 'def %s : Nat → %s → %s → %s (%s)' % (lf, elem_lean, ' → '.join(lean_t(env[p]) for p in params), MON(cx), rty)
+        txt = [sig, '  | _, [], %s => .ok %s' % (', '.join(lname(p) for p in params), tuple_text(rets) if rets else '()'),
+               '  | fuel, it_head :: it_rest, %s => do' % ', '.join(lname(p) for p in params),
+               '    let %s := %s' % (lname(var), '(it_head.toNat : Int)' if tyq == 'bytes' else 'it_head')] + ind(body, 4)
         cx.loops.append('\n'.join(txt))
         pat = tuple_text(rets) if rets else '_'
-        return bq + ['let %s ← %s %s %s' % (pat, lf, tq, ' '.join(lname(p) for p in params))] + tr(rest, env, cx, k)
+        return bq + ['let %s ← %s fuel %s %s' % (pat, lf, tq, ' '.join(lname(p) for p in params))] + tr(rest, env, cx, k)
     if isinstance(s, ast.Try):
         if s.orelse or s.finalbody or len(s.handlers) != 1:
             raise Unsupported('try with else/finally/several handlers')
@@ -841,14 +1050,16 @@ def translate_function(fn, consts, cls=None, funcs=None, lean_name=None):
             env['self'] = 'self:' + cls['name']
             continue
         ann = ast.unparse(a.annotation) if a.annotation is not None else ''
-        ty = {'HeaderWeaklyTyped': 'header', 'bool': 'bool', 'HeaderTuple': 'header', 'int': 'int', 'bytes': 'bytes', 'bytearray': 'bytes', 'bytes | bytearray': 'bytes', 'memoryview': 'bytes', 'bytes | bytearray | None': 'bytes', 'bytes | None': 'bytes'}.get(ann)
+        ty = {'tuple[bytes, bytes]': 'entry', 'HeaderWeaklyTyped': 'header', 'bool': 'bool', 'HeaderTuple': 'header', 'int': 'int', 'bytes': 'bytes', 'bytearray': 'bytes', 'bytes | bytearray': 'bytes', 'memoryview': 'bytes', 'bytes | bytearray | None': 'bytes', 'bytes | None': 'bytes'}.get(ann)
         if ty is None:
             raise Unsupported('parameter %s: %s' % (a.arg, ann))
         env[a.arg] = ty
     ret = ast.unparse(fn.returns) if fn.returns is not None else ''
-    rkind = {'tuple[HeaderTuple, int]': 'tuple:header,int', 'Iterable[HeaderTuple]': 'listheader', 'HeaderTuple': 'header', 'bytearray': 'bytes', 'bytes': 'bytes', 'int': 'int', 'tuple[int, int]': 'tuple:int,int', 'None': 'unit', 'tuple[bytes, bytes]': 'entry'}.get(ret)
+    rkind = {'Optional[tuple[int, bytes, Optional[bytes]]]': 'opt:' + SEARCHRES, 'tuple[HeaderTuple, int]': 'tuple:header,int', 'Iterable[HeaderTuple]': 'listheader', 'HeaderTuple': 'header', 'bytearray': 'bytes', 'bytes': 'bytes', 'int': 'int', 'tuple[int, int]': 'tuple:int,int', 'None': 'unit', 'tuple[bytes, bytes]': 'entry'}.get(ret)
     if rkind is None:
         raise Unsupported('return annotation %s' % ret)
+    cx.rkind = rkind
+    cx.var_types = (cls or {}).get('var_types', {}).get(fn.name, {}) if cls else {}
     rty = lean_t(rkind)
     if 'self' in env:
         rty = '%s × %s' % (cls['name'], rty)
@@ -865,6 +1076,7 @@ def module_consts(repo, module, cls=None):
             "ok = lambda v: (isinstance(v, int) and not isinstance(v, bool)) or (isinstance(v, (list, tuple)) and v and len(v) < 64 and all(isinstance(x, int) and not isinstance(x, bool) for x in v));"
             "pairs = lambda v: isinstance(v, (list, tuple)) and v and len(v) < 200 and all(isinstance(x, tuple) and len(x) == 2 and all(isinstance(y, bytes) for y in x) for x in v);"
             "out = {'module': {k: (list(v) if not isinstance(v, int) else v) for k, v in vars(m).items() if ok(v)}, 'cls': {}};"
+            "out['module'].update({k: {'bytes': list(v)} for k, v in vars(m).items() if isinstance(v, bytes) and len(v) < 16 and k.isupper()});"
             "c = getattr(m, %r, None) if %r else None;"
             "out['cls'] = {k: ({'int': v} if isinstance(v, int) else {'listint': list(v)}) for k, v in (vars(c).items() if c else []) if ok(v)};"
             "out['cls'].update({k: {'listentry': [[x[0].hex(), x[1].hex()] for x in v]} for k, v in (vars(c).items() if c else []) if pairs(v)});"
@@ -922,6 +1134,9 @@ def translate_unit(repo, unit):
                     const_lines.append('def c_%s : List (Int × Int × Int) := (%s).flatten.map fun e => ((e.1 : Int), (e.2.1 : Int), (e.2.2 : Int))' % (c, unit['triple_tables'][c]))
                     continue
                 report['constants'][c] = v
+                if isinstance(v, dict) and 'bytes' in v:
+                    const_lines.append('def c_%s : List UInt8 := [%s]' % (c, ', '.join(str(x) for x in v['bytes'])))
+                    continue
                 const_lines.append('def c_%s : Int := %d' % (c, v) if isinstance(v, int) else 'def c_%s : List Int := [%s]' % (c, ', '.join(str(x) for x in v)))
 
     for f in unit.get('functions', []):
@@ -943,7 +1158,11 @@ def translate_unit(repo, unit):
         for k, v in rt['cls'].items():
             (ty, val), = v.items()
             cconst[k] = (ty, val)
-        cls = {'name': cname, 'fields': {}, 'consts': cconst, 'methods': {}, 'used': [], 'method_params': {}}
+        for k_, ref in unit.get('map_tables', {}).items():
+            cconst[k_] = ('staticmap', ref)
+            const_lines.append('def c_%s_%s : List (List UInt8 × (Int × List (List UInt8 × Int))) := (%s).map fun e => (e.1, ((e.2.1 : Int), e.2.2.map fun p => (p.1, (p.2 : Int))))' % (cname, k_, ref))
+            report['constants']['%s.%s' % (cname, k_)] = 'the run-time mapping dumped by tools/translate.py (%s)' % ref
+        cls = {'name': cname, 'fields': {}, 'consts': cconst, 'methods': {}, 'used': [], 'method_params': {}, 'var_types': unit.get('var_types', {})}
         if 'extern' in unit:
             cls['extern'] = unit['extern']
         # fields and their initial values
@@ -1014,14 +1233,37 @@ def translate_unit(repo, unit):
     head_ = ['import HpackVerif.Src.Py'] + ['import ' + m for m in unit.get('imports', [])] + [
              '/-! GENERATED by tools/py2lean.py from the source text of $HPACK_REPO/src/%s on every run. Do not edit. -/' % unit['rel'],
              'namespace Src', 'open Py', '']
-    head_ = [h for h in head_ if h is not None]
+    head_ = [h for h in head_ if h is not None] + list(unit.get('prelude_lines', []))
     return '\n'.join(head_ + const_lines + ['', body, '', 'end Src', '']), report
 
 
 HT_EXTERN = {'HeaderTable': {'methods': {'get_by_index': (['int'], 'entry'), 'add': (['bytes', 'bytes'], 'unit')},
                            'properties': {'maxsize': 'int'}}}
 
+ENC_PRELUDE = [
+    '/-- NOT translated: `HuffmanEncoder.encode` (a hex-string round trip) is represented by the model\'s function; that function is',
+    '    tied to the code by the correspondence check only. The coder object carries no state that `encode` changes. -/',
+    'structure HuffmanEncoder where',
+    '  f_unit : Unit := ()',
+    'deriving Repr, DecidableEq',
+    'def HuffmanEncoder.std : HuffmanEncoder := {}',
+    'def HuffmanEncoder.encode (_fuel : Nat) (self : HuffmanEncoder) (b : List UInt8) : RS HuffmanEncoder (HuffmanEncoder × List UInt8) :=',
+    '  .ok (self, Impl.huffEncode Gen.codes b)', '']
+
 UNITS = {
+    'SrcEnc': {'module': 'hpack.hpack', 'rel': 'hpack/hpack.py', 'functions': [], 'cls': 'Encoder',
+               'methods': ['header_table_size.getter', 'header_table_size.setter', '_encode_indexed', '_encode_literal',
+                           '_encode_indexed_literal', '_encode_table_size_change', 'add'],
+               'imports': ['HpackVerif.Generated.SrcInt', 'HpackVerif.Generated.SrcTable', 'HpackVerif.Impl.EncModel', 'HpackVerif.Generated.Codes'],
+               'prelude_lines': ENC_PRELUDE,
+               'extern_funcs': {'encode_integer': (['int', 'int'], 'bytes')},
+               'extern': {'HeaderTable': {'methods': {'search': (['bytes', 'bytes'], 'opt:' + SEARCHRES), 'add': (['bytes', 'bytes'], 'unit')},
+                                          'properties': {'maxsize': 'int'}, 'fields': {'resized': 'bool'}},
+                          'HuffmanEncoder': {'methods': {'encode': (['bytes'], 'bytes')}}},
+               'init': {'header_table': ('obj:HeaderTable', 'HeaderTable()', 'HeaderTable.new'),
+                        'huffman_coder': ('obj:HuffmanEncoder', 'HuffmanEncoder(REQUEST_CODES, REQUEST_CODES_LENGTH)', 'HuffmanEncoder.std'),
+                        'table_size_changes': ('listint', '[]', '[]')},
+               'init_params': ''},
     'SrcDec': {'module': 'hpack.hpack', 'rel': 'hpack/hpack.py', 'functions': ['_unicode_if_needed'], 'cls': 'Decoder',
                'methods': ['header_table_size.getter', 'header_table_size.setter', '_assert_valid_table_size', '_update_encoding_context',
                            '_decode_indexed', '_decode_literal', '_decode_literal_no_index', '_decode_literal_index', 'decode'],
@@ -1037,7 +1279,9 @@ UNITS = {
                 'triple_tables': {'HUFFMAN_TABLE': 'Gen.huffTable'}, 'imports': ['HpackVerif.Generated.Table']},
     'SrcInt': {'module': 'hpack.hpack', 'rel': 'hpack/hpack.py', 'functions': ['encode_integer', 'decode_integer']},
     'SrcTable': {'module': 'hpack.table', 'rel': 'hpack/table.py', 'functions': ['table_entry_size'], 'cls': 'HeaderTable',
-                 'methods': ['get_by_index', '_shrink', 'add', 'maxsize.getter', 'maxsize.setter']},
+                 'methods': ['get_by_index', '_shrink', 'add', 'maxsize.getter', 'maxsize.setter', 'search'],
+                 'map_tables': {'STATIC_TABLE_MAPPING': 'Gen.staticMapping'}, 'imports': ['HpackVerif.Generated.Static'],
+                 'var_types': {'search': {'partial': 'opt:' + SEARCHRES}}},
 }
 
 
